@@ -35,7 +35,8 @@ def trees(size, syms, wraps=None):
 
 
 def grammars(max_size, full=False):
-    bs = ['NAME', "'x' NAME", "NUMBER | 'x'"]
+    # bodies of the second rule; the last two refer back to the first rule (indirect left recursion / mutual FIRST sets)
+    bs = ['NAME', "'x' NAME", "NUMBER | 'x'", 'a NUMBER', "NAME | a 'x'"]
     seen = set()
     for size in range(1, max_size + 1):
         if size < 3:
@@ -47,7 +48,7 @@ def grammars(max_size, full=False):
         for t in gen:
             for w in OUTER_WRAPS:
                 d = w % t
-                for b in (bs if size < 3 else bs[:1]):
+                for b in (bs if size < 3 else [bs[0], bs[3]]):
                     txt = 'a: %s NEWLINE\nb: %s\n' % (d, b)
                     if txt not in seen:
                         seen.add(txt)
@@ -116,7 +117,7 @@ def small_grammar_obligations(max_size=3, procs=16, full=False):
     F = ['parso.pgen2.generator.generate_grammar']
     stats = dict(evaluations=len(gs), distinct_nontrivial=cnt.get('ok', 0) + cnt.get('rejected', 0), counts=cnt,
                  samples=gs[:3] + gs[-2:],
-                 rule='every 2-rule grammar a: <rhs> NEWLINE / b: <one of 5 bodies> with <rhs> an EBNF tree of <= %d symbol '
+                 rule='every 2-rule grammar a: <rhs> NEWLINE / b: <one of 5 bodies, two of which start with a> with <rhs> an EBNF tree of <= %d symbol '
                       'occurrences over %r (each occurrence plain, starred or optional) combined by sequence, alternation and one outer [] ()* ()+; grammars with a '
                       'nullable rule are skipped; non-trivial = accepted with certificates or rejected as expected' % (max_size, SYMS))
     if not fails:
